@@ -116,7 +116,11 @@ where
 
         let mut polynomial_iterator = polynomial.iter();
 
-        (0..points.len()).for_each(|_| {
+        // A polynomial with fewer coefficients than there are points is its own
+        // remainder: pad it with leading (high-degree) zeros.
+        let padding = points.len().saturating_sub(polynomial.len());
+        (0..padding).for_each(|_| state.push_back(E::ScalarField::zero()));
+        (padding..points.len()).for_each(|_| {
             state.push_back(*polynomial_iterator.next().unwrap().borrow());
         });
 
